@@ -1090,3 +1090,57 @@ Proof.
   rewrite rtot_at_rsum, rself_at_rsum in H. rewrite !rsum_nodup in H by assumption. cbn [fst snd] in H.
   exact H.
 Qed.
+
+(* ------------------------------------------------------------------ the node limit, for every value of it:
+   limit+1 rows with fresh node ids under the root: the last one is dropped *)
+Definition fresh_row (j : nat) : row :=
+  {| r_parent := 0%N; r_fn := 7%N; r_id := N.of_nat j; r_self := 1; r_total := 1 |}.
+Definition fresh_rows (a k : nat) : list row := map fresh_row (seq a k).
+
+Lemma find_tnode_none cs i : (forall c, In c cs -> t_id c <> i) -> find_tnode cs i = None.
+Proof.
+  induction cs as [|c cs IH]; intros H; [reflexivity|]. cbn [find_tnode].
+  destruct (N.eqb (t_id c) i) eqn:E; [apply N.eqb_eq in E; exfalso; exact (H c (or_introl eq_refl) E)|].
+  apply IH. intros d Hd. apply H. right. exact Hd.
+Qed.
+
+Lemma cutoff_drops (n : nat) : forall k a t, (1 <= k)%nat -> (a + k = n + 2)%nat -> (1 <= a)%nat ->
+  m_num t = Z.of_nat a - 1 ->
+  (forall c, In c (children (m_nodes t) 0%N) -> (t_id c < N.of_nat a)%N) ->
+  node_at (m_nodes (merge_rows (Z.of_nat n) t (fresh_rows a k))) 0%N (N.of_nat (n + 1)) = None.
+Proof.
+  induction k as [|k IH]; intros a t Hk Hak Ha Hnum Hids; [lia|].
+  unfold fresh_rows. cbn [seq map]. fold (fresh_rows (S a) k).
+  set (cs := children (m_nodes t) 0%N) in *.
+  assert (Hnone : add_existing cs (fresh_row a) = None).
+  { apply add_existing_none. apply find_tnode_none. intros c Hc. specialize (Hids c Hc). cbn [fresh_row r_id]. lia. }
+  cbn [merge_rows]. cbn [m_nodes m_num]. change (r_parent (fresh_row a)) with 0%N. fold cs. rewrite Hnone.
+  destruct (Z.leb (Z.of_nat n) (m_num t)) eqn:El.
+  - (* the limit is reached: this row and all later ones are dropped *)
+    apply Z.leb_le in El. assert (a = (n + 1)%nat) by lia. subst a. cbn [m_nodes].
+    unfold node_at. fold cs. apply find_tnode_none. intros c Hc. specialize (Hids c Hc). lia.
+  - apply Z.leb_gt in El. destruct k as [|k'].
+    + exfalso. lia.
+    + apply IH; [lia|lia|lia|cbn [m_num]; lia|].
+      cbn [m_nodes]. rewrite children_set, N.eqb_refl. intros c Hc. apply in_app_or in Hc.
+      rewrite Nat2N.inj_succ.
+      destruct Hc as [Hc|[<-|[]]]; [specialize (Hids c Hc); lia|cbn [node_of_row t_id r_id fresh_row]; lia].
+Qed.
+
+Lemma merge_is_sum_refuted_any_limit limit : 0 <= limit -> exists rows : list row,
+  Forall row_in_range rows /\ exists p i,
+  vals_at (m_nodes (merge_trie limit new_tree rows [])) p i <>
+  (if has_key rows p i then Some (wrap64 (sum_self rows p i), wrap64 (sum_total rows p i)) else None).
+Proof.
+  intros Hl. set (n := Z.to_nat limit). exists (fresh_rows 1 (n + 1)). split.
+  - apply Forall_forall. intros r Hr. unfold fresh_rows in Hr. apply in_map_iff in Hr. destruct Hr as (j & <- & _).
+    unfold row_in_range, in_range, two63. cbn. lia.
+  - exists 0%N, (N.of_nat (n + 1)).
+    assert (Hk : has_key (fresh_rows 1 (n + 1)) 0%N (N.of_nat (n + 1)) = true).
+    { unfold has_key. apply existsb_exists. exists (fresh_row (n + 1)). split.
+      - unfold fresh_rows. apply in_map. apply in_seq. lia.
+      - unfold key_eqb. cbn [fresh_row r_parent r_id]. rewrite !N.eqb_refl. reflexivity. }
+    rewrite Hk. unfold vals_at. rewrite merge_trie_nodes. cbn [merge_funcs fst snd new_tree m_nodes m_num m_maxself m_names m_namesmap].
+    replace limit with (Z.of_nat n) by (unfold n; lia).
+    rewrite (cutoff_drops n (n + 1) 1); [discriminate|lia|lia|lia|cbn; lia|intros c []].
+Qed.
